@@ -78,6 +78,8 @@ def replay(cls, t, hist, props=(), labels=None):
         kind = op[0]
         label = labels[i] if labels else i
         before = snapshot(e) if want10 else None
+        views_before = (list(e.get_children(True)), list(e.get_children(False))) \
+            if want06 and kind in ('rep', 'repf', 'repi', 'repa', 'repself') else None
         nstd = len(lib.STDIO_EVENTS)
         newkid = None
         target = None
@@ -196,6 +198,15 @@ def replay(cls, t, hist, props=(), labels=None):
             if len(lib.STDIO_EVENTS) > nstd:
                 for ev in lib.STDIO_EVENTS[nstd:]:
                     r.viol.append(('C19', 'stdio:' + ev[0], i, {'site': ev[1], 'op': kind, 'text': ev[2]}))
+        # ---------------- C06: a successful replacement puts the new child exactly where the old one was, in both views
+        if want06 and views_before is not None and ok and target is not None:
+            sub = newkid if kind != 'repself' else target
+            for which, bef, now in (('ordered', views_before[0], e.get_children(True)),
+                                    ('insertion', views_before[1], e.get_children(False))):
+                if [id(sub) if x is target else id(x) for x in bef] != [id(x) for x in now]:
+                    r.viol.append(('C06', 'replacement-changes-position', i, {'view': which, 'before': [x.name for x in bef],
+                                                                              'after': [x.name for x in now]}))
+                    break
         # ---------------- C06 invariants at the boundary of the public call (also on the raise path)
         if want06:
             v = c06_invariants(e, live, r.gone)
